@@ -930,7 +930,7 @@ PROPS = {
     },
     "C10": {
         "property_modules": ["Zlink.Properties.C10"], "lean_modules": ["Zlink.Properties.C10"],
-        "theorems": ["C10.C10_stream_order", "C10.C10_items", "C10.C10_resume", "C10.C10_others_served",
+        "theorems": ["C10.C10_stream_order", "C10.C10_items", "C10.C10_resume", "C10.C10_others_served", "C10.C10_ready_call_goes_first",
                      "C10.C10_open_stream_blocks_nobody", "C10.C10_results_accounted", "C10.C10_pending_stream_untouched", "C10.C10_stream_rotation",
                      "C10.C10_unwritable_drops_only_subscription"],
         "run": run_srv_scenarios(["srv-stream"]), "trusted_base": TB_COMMON,
